@@ -49,11 +49,19 @@ fn block_on(ctl: &Arc<Ctl>, mut fut: Box<dyn DynFut>) -> OpOut {
   let w = Arc::new(ThreadWaker { ctl: ctl.clone(), th: std::thread::current() });
   let waker = Waker::from(w);
   let mut cx = Context::from_waker(&waker);
+  let mut n = 0u32;
   loop {
     if let Some(out) = fut.poll(&mut cx) {
       return out;
     }
-    Controller::park(&**ctl, None, std::panic::Location::caller());
+    // every third Pending is followed by a re-poll without waiting for the wake
+    // (an executor may poll spuriously: select!/join!/timers), otherwise park
+    n += 1;
+    if n % 3 == 2 {
+      Controller::spin(&**ctl, std::panic::Location::caller());
+    } else {
+      Controller::park(&**ctl, None, std::panic::Location::caller());
+    }
   }
 }
 
